@@ -3,6 +3,7 @@
 package chain
 
 import (
+	"bytes"
 	"fmt"
 	"io"
 	"net/http"
@@ -12,6 +13,7 @@ import (
 
 	"github.com/ipfs/go-cid"
 	"github.com/ipld/go-ipld-prime"
+	"github.com/ipld/go-ipld-prime/codec/dagjson"
 	cidlink "github.com/ipld/go-ipld-prime/linking/cid"
 	"github.com/ipni/go-libipni/dagsync/ipnisync"
 	"github.com/ipni/go-libipni/ingest/schema"
@@ -26,7 +28,7 @@ import (
 
 // Chain is blocks 1..N, block i linking to block i-1.
 type Chain struct {
-	Kind  string // "ads" | "entries"
+	Kind  string    // "ads" | "entries"
 	Cids  []cid.Cid // index 1..N (0 unused)
 	Index map[cid.Cid]int
 	Store *lsys.Store // holds every block
@@ -35,8 +37,12 @@ type Chain struct {
 
 // Build creates a chain of n blocks of the given kind; tag makes the contents (hence CIDs) distinct per publisher.
 func Build(kind string, n int, tag string) (*Chain, error) {
+	return BuildWith(kind, n, tag, schema.Linkproto.Prefix)
+}
+
+// BuildWith is Build with the multihash function / digest length of the blocks' CIDs chosen by the caller.
+func BuildWith(kind string, n int, tag string, prefix cid.Prefix) (*Chain, error) {
 	ch := &Chain{Kind: kind, Cids: make([]cid.Cid, n+1), Index: map[cid.Cid]int{}, Store: lsys.NewStore()}
-	ls := ch.Store.LinkSystem()
 	var prev ipld.Link
 	for i := 1; i <= n; i++ {
 		var node ipld.Node
@@ -60,14 +66,18 @@ func Build(kind string, n int, tag string) (*Chain, error) {
 		if err != nil {
 			return nil, err
 		}
-		lnk, err := ls.Store(ipld.LinkContext{}, schema.Linkproto, node)
+		var buf bytes.Buffer
+		if err = dagjson.Encode(node, &buf); err != nil {
+			return nil, err
+		}
+		c, err := prefix.Sum(buf.Bytes())
 		if err != nil {
 			return nil, err
 		}
-		c := lnk.(cidlink.Link).Cid
+		ch.Store.Put(c, buf.Bytes())
 		ch.Cids[i] = c
 		ch.Index[c] = i
-		prev = lnk
+		prev = cidlink.Link{Cid: c}
 	}
 	mh, _ := multihash.Sum([]byte("off-chain-"+tag), multihash.SHA2_256, -1)
 	ch.Off = cid.NewCidV1(cid.DagJSON, mh)
